@@ -584,6 +584,7 @@ impl<T: Clone, N, S: Storage<T, N>> Cluster<T, N, S> {
         self.validate_vote_state(request)?;
         self.validate_term_for_vote(request)?;
         self.validate_log_for_vote(request)?;
+        self.term = request.term;
         self.state = ClusterState::Voted(request.term);
         Self::ok(request)
     }
